@@ -268,9 +268,14 @@ def try_accumulate(interp, st, env, view):
         interp.exec_block(st.body, env)
         after = read_targets(interp, accs, env)
         deltas = {}
+        zero = [(place[j], z3.RealVal(0)) for j in accs]
         for k in accs:
-            d = z3.simplify(real(after[k]) - place[k])
-            if any(place[j].eq(c) for j in accs for c in consts_of(d)):
+            d = z3.simplify(z3.substitute(real(after[k]), *zero))
+            # the body must add a term that does not depend on any accumulator: after == place + d
+            chk = z3.Solver()
+            chk.set('timeout', 3000)
+            chk.add(real(after[k]) != place[k] + d)
+            if chk.check() != z3.unsat:
                 raise MergeAbort("accumulator is read by the loop body")
             deltas[k] = z3.substitute(d, (m.amt[x], a))
     except (MergeAbort, Raised, BreakEx, ContinueEx, ReturnEx):
